@@ -126,8 +126,18 @@ func checkC10(c *run.Ctx) {
 
 		// Real.
 		om := ordered.NewMap[string, string](len(entries))
-		for _, e := range entries {
-			om.Set(e.K, e.V)
+		var om2 *ordered.MapSS // a second pipeline defined from the same pairs (every third case, both built up front)
+		if i%3 == 0 {
+			pairs := make([]ordered.TupleSS, 0, len(entries))
+			for _, e := range entries {
+				pairs = append(pairs, ordered.TupleSS{Key: e.K, Value: e.V})
+			}
+			om = ordered.MapFromItems(pairs...)
+			om2 = ordered.MapFromItems(pairs...)
+		} else {
+			for _, e := range entries {
+				om.Set(e.K, e.V)
+			}
 		}
 		step := &pipeline.CommandStep{Command: probe}
 		p := &pipeline.Pipeline{Env: om, Steps: pipeline.Steps{step}}
@@ -215,6 +225,32 @@ func checkC10(c *run.Ctx) {
 					return
 				}
 			}
+		}
+		if om2 != nil {
+			// the second pipeline, same definitions, same kind of caller environment started afresh: same outcome
+			step2 := &pipeline.CommandStep{Command: probe}
+			p2 := &pipeline.Pipeline{Env: om2, Steps: pipeline.Steps{step2}}
+			var renv2 pipeline.InterpolationEnv
+			switch envKind {
+			case 0, 1:
+				renv2 = refmodel.NewEnv(ci, rt)
+			case 2, 3:
+				renv2 = pipeline.VerifNewEnv(!ci, rt)
+			}
+			var rerr2 error
+			if pi := run.Guard(func() { rerr2 = p2.Interpolate(renv2, prefer) }); pi != nil {
+				c.Violation(id, detail("second pipeline built from the same pairs: panic: "+pi.Value))
+				return
+			}
+			var got2 []c10Entry
+			_ = p2.Env.Range(func(k, v string) error { got2 = append(got2, c10Entry{k, v}); return nil })
+			if rerr2 != nil || fmt.Sprint(got2) != fmt.Sprint(want) || step2.Command != wantProbe {
+				d := detail("a second pipeline whose env block was built from the same pairs (before the first was interpolated) gives a different result than the model")
+				d["err"], d["got"], d["want"], d["probe_got"], d["probe_want"] = fmt.Sprint(rerr2), got2, want, step2.Command, wantProbe
+				c.Violation(id, d)
+				return
+			}
+			c.Count("second_pipeline_from_the_same_pairs", 1)
 		}
 		if c.WantSample() && len(entries) > 2 {
 			c.Sample(map[string]any{"entries": entries, "runtime_env": rt, "prefer_runtime": prefer, "block_after": got, "probe_after": step.Command})
